@@ -101,6 +101,7 @@ func init() {
 }
 
 type corruptStats struct {
+	hangs      int
 	mu         sync.Mutex
 	done       int64
 	nontrivial int64
@@ -254,11 +255,11 @@ func runCorrupt(r *ev.Run, target string, sigPrefix string) (*corruptStats, int)
 			for {
 				mu.Lock()
 				st.mu.Lock()
-				tooMany := st.deaths > 40
+				tooMany := st.deaths > 1500 || st.hangs > 12
 				st.mu.Unlock()
 				if next >= len(spans) || r.OutOfTime() || tooMany {
 					if tooMany {
-						r.Set("stopped_early", "more than 40 worker deaths/hangs: exploration stopped, what was covered is reported")
+						r.Set("stopped_early", "more than 1500 worker deaths or 12 hangs: exploration stopped, what was covered is reported")
 						r.Capped = true
 					}
 					mu.Unlock()
@@ -295,6 +296,9 @@ func runCorrupt(r *ev.Run, target string, sigPrefix string) (*corruptStats, int)
 						cls := "process-death"
 						if strings.Contains(diag, "no progress") {
 							cls = "hang"
+							st.mu.Lock()
+							st.hangs++
+							st.mu.Unlock()
 						}
 						if nm, ok := t.(interface{ ImageOf(i int) string }); ok {
 							cls = nm.ImageOf(bad) + "|" + cls
